@@ -30,6 +30,11 @@ class MemoryManager:
             operand.Register(RegisterName.M, i): False for i in range(16)
         }
 
+        # Measurement registers that were handed out and released again in the current
+        # subroutine (outcomes stored into arrays). They may be overwritten whenever the
+        # code that used them runs again (loops), so they never hold a RegFuture.
+        self._scratch_meas_registers: Set[operand.Register] = set()
+
         # Registers that need to be returned at the end of the subroutine.
         self._registers_to_return: List[operand.Register] = []
 
@@ -94,11 +99,18 @@ class MemoryManager:
     def meas_register_set_unused(self, reg: operand.Register) -> None:
         """Mark a measurement register as 'not in use'."""
         self._used_meas_registers[reg] = False
+        self._scratch_meas_registers.add(reg)
 
-    def get_new_meas_outcome_register(self) -> operand.Register:
-        """Get an un-used measurement register."""
+    def get_new_meas_outcome_register(self, keep: bool = False) -> operand.Register:
+        """Get an un-used measurement register.
+
+        :param keep: the register will hold its value until the end of the subroutine
+            (a RegFuture): do not pick one that other measurements use as scratch.
+        """
         # Find the next unused M-register.
         for reg, used in self._used_meas_registers.items():
+            if keep and reg in self._scratch_meas_registers:
+                continue
             if not used:
                 self._used_meas_registers[reg] = True
                 return reg
@@ -109,6 +121,7 @@ class MemoryManager:
         self._used_meas_registers = {
             operand.Register(RegisterName.M, i): False for i in range(16)
         }
+        self._scratch_meas_registers = set()
 
     def add_register_to_return(self, reg: operand.Register) -> None:
         """Let a register be returned at the end of the subroutine."""
